@@ -4,6 +4,8 @@
 //         [2 cmd:B params:LB reqhdr rsphdr]                       mod_header: ActionFileCheck+actionConvert+HeaderActionsDo
 //                                                                 hdr = [[key [values]] ...] with canonical, distinct keys
 //         [3 cmd:B params:LB [host path rawquery]]                mod_redirect: ActionFileListCheck+redirectActionsDo
+//         [4 cmd:B params:LB [host path rawquery] reqhdr]         bfe_basic/action: json.Unmarshal into action.Action
+//                                                                 (UnmarshalJSON -> ActionFileCheck) + Action.Do
 // output: Err 1 (configuration rejected) | [host path rawquery] | [reqhdr rsphdr] (sorted by key) | [url]
 package main
 
@@ -20,6 +22,7 @@ import (
 	"verif/harness/hv"
 
 	"github.com/bfenetworks/bfe/bfe_basic"
+	"github.com/bfenetworks/bfe/bfe_basic/action"
 	"github.com/bfenetworks/bfe/bfe_http"
 	"github.com/bfenetworks/bfe/bfe_modules/mod_header"
 	"github.com/bfenetworks/bfe/bfe_modules/mod_redirect"
@@ -108,6 +111,22 @@ func impl(in hv.Val) hv.Val {
 			return hv.Err(1)
 		}
 		return hv.L{fromHeader(req.HttpRequest.Header), fromHeader(req.HttpResponse.Header)}
+	case 4:
+		data, err := json.Marshal(map[string]interface{}{"Cmd": cmd, "Params": params})
+		if err != nil {
+			return hv.Err(7)
+		}
+		var ac action.Action
+		if err := json.Unmarshal(data, &ac); err != nil {
+			return hv.Err(1)
+		}
+		req := mkReq(top[3])
+		req.HttpRequest.Header = toHeader(top[4])
+		if err := ac.Do(req); err != nil {
+			return hv.Err(6)
+		}
+		return hv.L{hv.L{hv.S(req.HttpRequest.Host), hv.S(req.HttpRequest.URL.Path), hv.S(req.HttpRequest.URL.RawQuery)},
+			fromHeader(req.HttpRequest.Header)}
 	case 3:
 		req := mkReq(top[3])
 		u, err := mod_redirect.VerifRedirectActionC49(cmd, params, req)
@@ -255,8 +274,8 @@ func genRewrite(r *hv.Rng) (string, hv.Val) {
 	return class, hv.L{hv.I(1), hv.S(cmd), hv.LS(params), genURL(r, focus)}
 }
 
-var hkeys = []string{"X-Bfe-Log-Id", "X-Proxied-By", "Referer", "Accept-Encoding", "X-A", "Set-Cookie"}
-var hkeyForms = []string{"x-bfe-log-id", "X-PROXIED-BY", "referer", "accept-Encoding", "x-a", "Set-Cookie", "X-New", "x-new-hdr", "bad key", "X_Under", "a--b-"}
+var hkeys = []string{"X-Bfe-Log-Id", "X-Proxied-By", "Referer", "Location", "X-A", "Set-Cookie"}
+var hkeyForms = []string{"x-bfe-log-id", "X-PROXIED-BY", "referer", "location", "x-a", "Set-Cookie", "X-New", "x-new-hdr", "bad key", "X_Under", "a--b-"}
 
 func genHdr(r *hv.Rng) hv.Val {
 	out := hv.L{}
@@ -272,7 +291,7 @@ func genHdr(r *hv.Rng) hv.Val {
 	}
 	sort.Strings(ks)
 	for _, k := range ks {
-		vs := []string{r.Pick([]string{"v1", "bfe", "http://a/"})}
+		vs := []string{r.Pick([]string{"v1", "bfe", "http://a/", "https://b.example/x?y=http://z", "", "httpx://c", "http:/d", "HTTP://e"})}
 		if r.Chance(1, 4) {
 			vs = append(vs, "v2")
 		}
@@ -282,9 +301,17 @@ func genHdr(r *hv.Rng) hv.Val {
 }
 
 func genHeader(r *hv.Rng) (string, hv.Val) {
-	cmd := r.Pick([]string{"REQ_HEADER_SET", "REQ_HEADER_ADD", "REQ_HEADER_DEL", "RSP_HEADER_SET", "RSP_HEADER_ADD", "RSP_HEADER_DEL"})
+	cmd := r.Pick([]string{"REQ_HEADER_SET", "REQ_HEADER_ADD", "REQ_HEADER_DEL", "RSP_HEADER_SET", "RSP_HEADER_ADD", "RSP_HEADER_DEL",
+		"REQ_HEADER_RENAME", "RSP_HEADER_RENAME", "REQ_HEADER_MOD", "RSP_HEADER_MOD"})
 	params := []string{r.Pick(hkeyForms)}
-	if !strings.HasSuffix(cmd, "DEL") {
+	switch {
+	case strings.HasSuffix(cmd, "DEL"):
+	case strings.HasSuffix(cmd, "RENAME"):
+		params = append(params, r.Pick(hkeyForms))
+	case strings.HasSuffix(cmd, "MOD"):
+		params = []string{r.Pick([]string{"SCHEME_SET", "scheme_set", "Scheme_Set", "SCHEME_DEL"}),
+			r.Pick([]string{"Referer", "referer", "LOCATION", "location", "X-A"}), r.Pick([]string{"http", "https", "HTTPS", "ftp"})}
+	default:
 		params = append(params, r.Pick([]string{"bfe", "v 1", "a,b", "x"}))
 	}
 	class := cmd
@@ -306,7 +333,8 @@ func genHeader(r *hv.Rng) (string, hv.Val) {
 	return class, hv.L{hv.I(2), hv.S(cmd), hv.LS(params), genHdr(r), genHdr(r)}
 }
 
-var safePaths = []string{"/", "", "/a", "/a/b.html", "/redirect/x_y-z~1", "/a/b/"}
+var safePaths = []string{"/", "", "/a", "/a/b.html", "/redirect/x_y-z~1", "/a/b/", "*", "/a b", "/a?b", "/%41", "/a/\xe4\xb8\xad", "/$&+,:;=@",
+	"/<x>\"y\"", "/a#b", "//x", "/\x00\x7f", "**"}
 
 func genRedirect(r *hv.Rng) (string, hv.Val) {
 	cmd := r.Pick([]string{"URL_SET", "URL_FROM_QUERY", "URL_PREFIX_ADD", "SCHEME_SET"})
@@ -340,7 +368,42 @@ func genRedirect(r *hv.Rng) (string, hv.Val) {
 	return class, hv.L{hv.I(3), hv.S(cmd), hv.LS(params), u}
 }
 
+// bfe_basic/action used directly: every command of the package, header commands with and without the X-BFE- prefix
+func genDirect(r *hv.Rng) (string, hv.Val) {
+	if r.Bool() {
+		c, v := genRewrite(r)
+		l := v.(hv.L)
+		return c, hv.L{hv.I(4), l[1], l[2], l[3], genHdr(r)}
+	}
+	cmd := r.Pick([]string{"REQ_HEADER_SET", "REQ_HEADER_ADD", "REQ_HEADER_DEL", "CLOSE", "PASS", "FINISH", "RSP_HEADER_SET"})
+	var params []string
+	switch cmd {
+	case "REQ_HEADER_SET", "REQ_HEADER_ADD":
+		params = []string{r.Pick([]string{"X-Bfe-Log-Id", "x-bfe-log-id", "X-BFE-New", "X-Bfe", "X-BFE-", "X-Other", "Referer", "x-bfe bad"}), r.Pick([]string{"v", "a b"})}
+	case "REQ_HEADER_DEL":
+		params = []string{r.Pick(hkeyForms)}
+	default:
+		params = []string{}
+	}
+	class := cmd
+	switch r.Intn(12) {
+	case 0:
+		params = append(params, "extra")
+		class = "arity/" + cmd
+	case 1:
+		if len(params) > 0 {
+			params[r.Intn(len(params))] = ""
+			class = "emptyparam/" + cmd
+		}
+	}
+	return class, hv.L{hv.I(4), hv.S(caseMix(r, cmd)), hv.LS(params), genURL(r, nil), genHdr(r)}
+}
+
 func gen(r *hv.Rng, i int, tier string) (string, hv.Val) {
+	if r.Chance(1, 7) {
+		c, v := genDirect(r)
+		return "direct/" + c, v
+	}
 	switch k := r.Intn(10); {
 	case k < 6:
 		c, v := genRewrite(r)
